@@ -1210,8 +1210,64 @@ def rerun(inp):
     return chain_case(inp)
 
 
+def _falsy_keys():
+    class DK(dict):
+        def __call__(self, v):
+            return abs(v)
+
+    class BK:
+        def __bool__(self):
+            return False
+
+        def __call__(self, v):
+            return abs(v)
+
+    class LK:
+        def __len__(self):
+            return 0
+
+        def __call__(self, v):
+            return abs(v)
+    return [DK(), BK(), LK()]
+
+
+def F25_C03_falsy_eq_key():
+    """repair cb57cf9: an eq / cmp key that is a callable object with a False truth value is applied."""
+    for key in _falsy_keys():
+        for deco in (attr.s, attrs.define, attrs.frozen):
+            for how in ("eq", "cmp"):
+                C = deco(type("C", (), {"a": attr.ib(**{how: key})}))
+                if attr.fields(C).a.eq_key is not key:
+                    return "%s=%s: Attribute.eq_key is %r" % (how, type(key).__name__, attr.fields(C).a.eq_key)
+                if not (C(1) == C(-1)) or (C(1) != C(-1)) or C(1) == C(2) or not (C(1) != C(2)):
+                    return "%s=%s under %s: key not applied by == / !=" % (how, type(key).__name__, deco.__name__)
+    return None
+
+
+def _shared_corpus(tag):
+    import importlib.util
+    import os
+    path = os.path.join(vlib.VERIF, "corpus", "defects.py")
+    if not os.path.exists(path):
+        return []
+    spec = importlib.util.spec_from_file_location("verif_defects", path)
+    m = importlib.util.module_from_spec(spec)
+    spec.loader.exec_module(m)
+    return [(k, f) for k, f in m.ALL.items() if tag in k]
+
+
+def _safe(fn):
+    def run():
+        try:
+            return fn()
+        except Exception as e:  # noqa: BLE001 - a crash of the reproducer is a deviation too
+            return "reproducer raised %s: %s" % (type(e).__name__, e)
+    return run
+
+
 def corpus():
-    return []
+    return [("F25_C03_falsy_eq_key", _safe(F25_C03_falsy_eq_key))] + \
+           [(k, _safe(f)) for k, f in _shared_corpus("_C03_") if k != "F25_C03_falsy_eq_key"]
 
 
 def EXHAUSTIVE(tier):
